@@ -130,7 +130,8 @@ def sig_of(v, row, at):
         where = "0" if o["n"] == 0 else ("<1" if o["n"] < 1 else ">nl")
         return "%s|entry=%s|line=%s" % (clause, row["entry"], where)
     if clause == "C05.fault_line":
-        got = o["k"] if o["k"] != "error" else "error@%+d" % (o["n"] - row["fl"])
+        fl = v[4] if len(v) > 4 else row["fl"]
+        got = o["k"] if o["k"] != "error" else "error@%+d" % (o["n"] - fl)
         return "%s|entry=%s|fault=%s|obs=%s" % (clause, row["entry"], v[3] if len(v) > 3 else "?", got)
     return "%s|entry=%s" % (clause, row["entry"])
 
